@@ -20,7 +20,7 @@ func newEnc(w *World, fn *ssa.Function, fc *FuncContract, pass int, prev *Enc) *
 		edgeCond: map[[2]int]Term{}, writes: map[int]map[string]bool{}, callOrd: map[string]int{}, kindOrd: map[string]int{},
 		debugVars: map[string][]ssa.Value{}, closures: map[ssa.Value]*ssa.MakeClosure{}, ghostLoc: map[string]Val{},
 		paramVals: map[string]Val{}, used: map[string]bool{}, typeIDs: w.typeIDs,
-		atHit: map[int]bool{}, rangeOf: map[*ssa.Range]ssa.Value{},
+		atHit: map[int]bool{}, rangeOf: map[*ssa.Range]ssa.Value{}, callLog: map[string]SV{}, replayTerm: map[string]SV{},
 	}
 	if fc != nil && fc.Mode == "bv" {
 		e.bv = true
@@ -116,6 +116,22 @@ func (e *Enc) run() {
 		}
 		e.exitSt[b] = e.cur
 	}
+	e.evalReplayVals()
+}
+
+// evalReplayVals evaluates the contract's replay expressions (entry state; call results by name).
+func (e *Enc) evalReplayVals() {
+	if e.fc == nil || len(e.fc.ReplayVals) == 0 || e.pass != 2 {
+		return
+	}
+	saved := e.curReach
+	e.curReach = tTrue
+	env := e.newSpecEnv(e.init, e.init)
+	env.noLocals = true
+	for _, rv := range e.fc.ReplayVals {
+		e.replayTerm[rv.Name] = env.eval(rv.Expr)
+	}
+	e.curReach = saved
 }
 
 func (e *Enc) bindParam(v ssa.Value, name string, t types.Type) {
